@@ -31,8 +31,9 @@ Judge ==
               \cup (IF "cls" \in Clauses /\ ok /\ ClassificationOK(R.op, R.sub, R.fq, R.A, R.B, TRUE)
                                    /\ ~ClassificationOK(R.op, R.sub, R.fq, R.A, R.B, FALSE) THEN {"cls_stale_pir"} ELSE {})
               \cup f("evo", EventOrderOK(FqTable(R), R.cmp0) /\ (ok => EventOrderOK(R.sub.ev, R.cmp1)))
-              \cup f("sego", ok => SegmentOrderOK(R.sub.ev, R.seg, FALSE))
-              \cup (IF "sego" \in Clauses /\ ok /\ SegmentOrderOK(R.sub.ev, R.seg, FALSE) /\ ~SegmentOrderOK(R.sub.ev, R.seg, TRUE)
+              \cup f("sego", SegmentOrderOK(FqTable(R), R.seg0, FALSE) /\ (ok => SegmentOrderOK(R.sub.ev, R.seg, FALSE)))
+              \cup (IF "sego" \in Clauses /\ SegmentOrderOK(FqTable(R), R.seg0, FALSE) /\ (ok => SegmentOrderOK(R.sub.ev, R.seg, FALSE))
+                       /\ ~(SegmentOrderOK(FqTable(R), R.seg0, TRUE) /\ (ok => SegmentOrderOK(R.sub.ev, R.seg, TRUE)))
                     THEN {"sego_stacked_vertical"} ELSE {})
      IN /\ bad' = v
         /\ \A x \in v : PrintT(<<"STAGEFAIL", x, R.rid>>)
